@@ -98,7 +98,11 @@ def body_factory(wrapper, step, trained0, hook, depth, col):
     """step: an int, or ("switch", j, s1, s2): train_step is s1 for the first j requests and is then set to s2 by the user
     (as artap's own surrogate example does after its DoE phase)."""
     schedule = step if isinstance(step, tuple) and step[0] == "switch" else None
-    preload = step[1] if isinstance(step, tuple) and step[0] == "preload" else 0
+    preload = step[1] if isinstance(step, tuple) and step[0] in ("preload", "preload_store") else 0
+    via_store = isinstance(step, tuple) and step[0] == "preload_store"
+    premarked = isinstance(step, tuple) and step[0] == "evaluated"
+    if premarked:
+        step = step[1]
     weird = isinstance(step, tuple) and step[0] == "weird"
     if weird:
         step = step[1]
@@ -115,9 +119,19 @@ def body_factory(wrapper, step, trained0, hook, depth, col):
         out = []
         # reference automaton
         r_tr, r_ev, r_pr, r_data, r_fits = (trained0 if wrapper != "eval" else True), 0, 0, [], 0
-        for j in range(preload):          # a training set loaded beforehand (add_data / read_from_data_store): data, not evaluations
-            s.add_data([9.0 + j], [81.0 + j])
-            r_data.append(9.0 + j)
+        if via_store:                     # the documented warm start: the problem's recorded individuals become training data
+            problem.individuals = []
+            for j in range(preload):
+                old = Individual([9.0 + j])
+                old.costs = [81.0 + j]
+                old.state = Individual.State.EVALUATED
+                problem.individuals.append(old)
+            s.read_from_data_store()
+            r_data.extend(9.0 + j for j in range(preload))
+        else:
+            for j in range(preload):          # a training set loaded beforehand (add_data): data, not evaluations
+                s.add_data([9.0 + j], [81.0 + j])
+                r_data.append(9.0 + j)
         trace = []
         interesting = False
         for k in range(depth):
@@ -128,6 +142,11 @@ def body_factory(wrapper, step, trained0, hook, depth, col):
             # repeated points is observable
             x = [0.125 * ((k % 3) + 1)]
             ind = Individual(list(x))
+            if premarked and k % 3 == 1:
+                # the request carries an individual that already holds (stale) results: still a request
+                ind.state = Individual.State.EVALUATED
+                ind.costs = [999.0]
+                ind.costs_signed = [999.0, True]
             n_calls = len(problem.h_log)
             n_ret = len(st["returned"])
             asked0 = st.get("asked", 0)
@@ -193,7 +212,7 @@ def body_factory(wrapper, step, trained0, hook, depth, col):
                 break
         ctx.digest = (tuple(trace), s.eval_counter, s.predict_counter)
         if interesting:
-            col.nontrivial((wrapper, schedule or (preload, step, weird), trained0, hook, tuple(ctx.choices)))
+            col.nontrivial((wrapper, schedule or (preload, step, weird, premarked, via_store), trained0, hook, tuple(ctx.choices)))
         return out
     body.step = step
     return body
@@ -272,6 +291,14 @@ def run(tier, seed):
             shards.append((wrapper, ("weird", step), False, False, 20))
             shards.append((wrapper, ("weird", step), True, True, depth))
     shards.append(("eval", ("weird", -1), True, False, 12))
+    for wrapper in ("scikit", "smt"):
+        for step in (-1, 1, 2, 3):
+            shards.append((wrapper, ("evaluated", step), False, False, 12))
+            shards.append((wrapper, ("evaluated", step), True, True, min(depth, 7)))
+        for pre in (("preload_store", 3, 5), ("preload_store", 1, 2), ("preload_store", 4, 3), ("preload_store", 2, -1)):
+            for hook in (False, True):
+                shards.append((wrapper, pre, False, hook, 12 if not hook else min(depth, 7)))
+    shards.append(("eval", ("evaluated", -1), True, False, 9))
     shards.append(("two", 12))
     for wrapper in ("scikit", "smt"):          # long request sequences (no hook: one execution each)
         for step in (1, 2, 3, 4, 5, 7, 10, -1):
